@@ -22,13 +22,14 @@ ID = "C03"
 GEN = ["Gen_Exc", "Gen_Urlopen", "Gen_Read"]
 RULE = ("histories of 2-4 GET/HEAD requests on one pool (maxsize 1-2) against a scripted keep-alive server: Content-Length / chunked / "
         "close-delimited / body-less replies, body split over segments, early EOF, keep-alive or close, a stray second response or junk after "
-        "a reply (same or separate segment), EOF after a keep-alive reply; caller reads all / reads k then releases / releases unread / keeps the "
+        "a reply (same or separate segment), EOF after a keep-alive reply, an interim 103 before the final reply (which follows at once or only with the next request; oracle only); caller reads all / reads k then releases / releases unread / keeps the "
         "unread response alive / drains / closes / streams; non-trivial = some reply was not a plain complete keep-alive one or the caller "
         "did not read it all; distinct = distinct (case, observation)")
 TRUSTED_BASE = [
     "model coq/model/Wire.v (per-socket inbound item queues, checkout test, http.client response state, body readers)",
     "reply heads always arrive whole in one segment; servers answer each request only after receiving it; in-memory sockets of tools/netsim",
     "garbage collection of dropped responses is immediate (gc.collect after every disposal)",
+    "interim (1xx) responses are not in the model: histories with a 103 before the final reply are judged by the oracle only (known finding C03-F2)",
 ]
 ASSUMPTIONS = ["stray bytes are pending at checkout or never arrive (the property excludes bytes that arrive after checkout); the rest of a body may arrive late",
                "requests are issued one after the other", "retries is the library default (3)"]
@@ -78,7 +79,7 @@ def is_late(r):
 
 def in_model_domain(case):
     """release_conn=True passed explicitly together with preload_content=False is judged by the oracle only"""
-    return not any(q.get("release_now") for q in case["reqs"])
+    return not any(q.get("release_now") for q in case["reqs"]) and not any(r.get("interim") for r in case["replies"])
 
 
 def enc_reply(r):
@@ -186,6 +187,16 @@ def impl(case):
                 segs.append(stray_resp)
             elif st == "sep_junk":
                 segs.append(stray_junk)
+        if r.get("interim") and not late:
+            # an interim 103 response first (RFC 8297); the final response follows at once ("pending") or only when the next request
+            # arrives on the connection ("late": the server was still working on it)
+            pre = b"HTTP/1.1 103 Early Hints\r\nX-Req: %d\r\nLink: </s.css>; rel=preload\r\n\r\n" % req_index
+            if r["interim"] == "pending":
+                segs[0] = pre + segs[0]
+            else:
+                peer.send(pre)
+                peer.held = b"".join(segs)
+                return
         if late and fr == "chunked":
             # the size line of the last data chunk arrives with the first bytes; its data - which reads like a response - is held back
             peer.send(head_of(r["status"], hdrs) + chunked(mark * r["first"]) + b"%x\r\n" % LATE_TAIL)
@@ -335,7 +346,7 @@ def oracle(case, obs):
         sent = [r["sent"] for r in served.get(i, []) if r["kind"] == "resp"]
         if total and total > max(sent or [0]):
             return "request #%d was delivered %d bytes, more than the server sent for it" % (i, total)
-        if outcome == 0 and status not in [r["status"] for r in served.get(i, []) if r["kind"] == "resp"]:
+        if outcome == 0 and status not in [r["status"] for r in served.get(i, []) if r["kind"] == "resp"] + [103 for r in served.get(i, []) if r.get("interim")]:
             return "request #%d got status %d which no reply to it carried" % (i, status)
     return None
 
@@ -345,6 +356,9 @@ def signature(case, obs, msg):
     m = re.match(r"request #(\d+) was handed a response the server did not send in reply to it", msg or "")
     if m and int(m.group(1)) >= 1 and case["reqs"][int(m.group(1)) - 1].get("release_now"):
         return {"kind": "explicit-release-conn-with-unread-body"}
+    m = re.match(r"request #(\d+) (was delivered|got status|was handed a response the server did not send in reply to it)", msg or "")
+    if m and any(r.get("interim") == "late" for r in case["replies"]):
+        return {"kind": "interim-response-taken-as-final"}
     return {"msg": (msg or "")[:40]}
 
 
@@ -442,6 +456,11 @@ def cases(rng, tier):
             for stray in ("none", "same_resp", "sep_resp", "same_junk", "sep_junk"):
                 shapes.append({"kind": "resp", "status": status, "framing": "len", "n": 0, "first": 0, "sent": 0, "keep": keep, "stray": stray, "eof_after": False})
     shapes += [{"kind": "junk"}, {"kind": "eof"}]
+    # an interim 103 before the final response, which follows at once or only after the caller has moved on
+    for interim in ("pending", "late"):
+        for framing, n in (("len", 4), ("chunked", 4), ("len", 0)):
+            for keep in (True, False):
+                shapes.append({"kind": "resp", "status": 200, "framing": framing, "n": n, "first": n, "sent": n, "keep": keep, "stray": "none", "eof_after": False, "interim": interim})
     for sh in shapes:
         for c in CALLERS:
             if c[0] == "read1" and sh.get("framing", "len") != "len":
